@@ -70,10 +70,11 @@ def gemvT (A : Csc α) (y x : Array α) (a b : α) : MErr (Array α) := do
     y ← setE y j yj "gemv: y"
   return y
 
-/-- `_csc_symv_*`: `y ← a·sym(A)·x + b·y`, `A` holding one triangle.  The prologue is
-`y.scale(b)` (a multiplication, also for `b = 0`). -/
+/-- `_csc_symv_*`: `y ← a·sym(A)·x + b·y`, `A` holding one triangle.  Since /repo 1706c1f
+the prologue is, as in gemv, `y.fill(0)` when `b == 0` (`y` is not read: it may hold NaN/Inf
+left by an earlier solve) and `y.scale(b)` otherwise. -/
 def symv (A : Csc α) (y x : Array α) (a b : α) : MErr (Array α) := do
-  let mut y := y.map (fun v => v * b)
+  let mut y := if b == 0 then y.map (fun _ => 0) else y.map (fun v => v * b)
   if x.size != A.n then throw (.panic "symv: x length")
   if y.size != A.n then throw (.panic "symv: y length")
   if A.n != A.m then throw (.panic "symv: not square")
